@@ -56,7 +56,8 @@ CHECKS = {
         text="Theorem subst_narrows (Coq, all well-formed schemas, all plain values v with s % v defined, ALL values w, "
              "no bound on nesting/length): conforms (s % v) w -> conforms s w, by nested induction over the schema "
              "(scalars, typed lists, the four element-list forms incl. every contains-window, partial dicts, relaxed "
-             "dicts, any-filtering, alias, custom). Tie: per-run comparison of the real substitute's resulting schema "
+             "dicts, any-filtering, alias, custom); subst_narrows_verdict_closed (the same on validator verdicts with no "
+             "hypothesis about the result: its well-formedness is proved, subst_result_wf). Tie: per-run comparison of the real substitute's resulting schema "
              "/ exception class with the model; oracle on /repo: for every successful S % v, third values w "
              "(generated from S % v under min/max/random tapes, perturbations, values conforming to S) accepted by "
              "S % v must be accepted by S.",
@@ -73,8 +74,10 @@ CHECKS = {
              "decidable predicate choice_free, evaluated inside Coq for the schema of every case: where it holds the "
              "oracle accepts no known-finding excuse). The full clause is stated and "
              "REFUTED for the faithful model (subst_accepts_value_refuted: known findings F20/F25, witnesses replay on "
-             "/repo); at choice points it is checked on /repo by the oracle. Proof is partial in that sense, and in "
-             "that the generation clause is checked by the oracle on the real generator only. Tie: per-run comparison of "
+             "/repo); at choice points it is checked on /repo by the oracle. Proof is partial in that sense. The generation "
+             "clause is proved as subst_generated_carries (under hsat - a decidable hypothesis on the original schema "
+             "about what substitution leaves untouched - for every world and EVERY tape the result generates a value, "
+             "which conforms to the result and carries v) and also checked on the real generator. Tie: per-run comparison of "
              "the real substitute's result with the model; oracle: (a) accepts-v, (b) generated/accepted values carry v, "
              "(c) unspecified keys unchanged.",
         note=COMMON_NOTE + "Known findings F20, F25 (choice points over partial dicts) are open and "
